@@ -179,6 +179,23 @@ def encAccCommitted (q : Nat) (P : FParams) (lhs rhs : Msm) : List Nat × List N
   let r := encMsmCommitted q P rhs
   (encMsm q P lhs ++ r.1, r.2)
 
+/-- `verifier/msm.rs: AssignedMsm::constrain_as_public_input` (in-circuit): each base through the
+curve chip's exposure (limb cells and flag), then the scalar cells, then the fixed-base scalar
+cells in `BTreeMap` order. -/
+def cellsMsm (q : Nat) (P : FParams) (m : Msm) : List Nat :=
+  m.bases.flatMap (fun b => let r := reprPoint q P b; cellsPoint q P r.1 r.2.1 r.2.2)
+    ++ m.scalars.map (· % q) ++ m.fixed.map (· % q)
+
+/-- `verifier_gadget.rs: constrain_as_public_input` for accumulators: lhs then rhs, all on the
+plain instance column. -/
+def cellsAcc (q : Nat) (P : FParams) (lhs rhs : Msm) : List Nat := cellsMsm q P lhs ++ cellsMsm q P rhs
+
+/-- `verifier_gadget.rs: constrain_acc_as_public_input_with_committed_scalars`: lhs and the
+rhs bases on the plain column, the rhs scalars (variable then fixed) on the committed column. -/
+def cellsAccCommitted (q : Nat) (P : FParams) (lhs rhs : Msm) : List Nat × List Nat :=
+  (cellsMsm q P lhs ++ rhs.bases.flatMap (fun b => let r := reprPoint q P b; cellsPoint q P r.1 r.2.1 r.2.2),
+   rhs.scalars.map (· % q) ++ rhs.fixed.map (· % q))
+
 /-! ## The instance-row counter and what an exposure binds -/
 
 /-- `native_chip.rs: NativeChip` — the two instance offsets and (for the model) the copy
@@ -225,5 +242,13 @@ def bump (q : Nat) (l : List Nat) (i : Nat) : List Nat :=
 /-- Number of single-position edits (+1) of `enc` that violate `binds`. -/
 def rejectedEdits (q : Nat) (binds : List (Nat × Nat)) (enc : List Nat) : Nat :=
   ((List.range enc.length).filter (fun i => !holdsB binds (bump q enc i))).length
+
+/-- Number of the listed single-position edits (+1) of `enc` that violate `binds`. -/
+def rejectedEditsAt (q : Nat) (binds : List (Nat × Nat)) (enc : List Nat) (positions : List Nat) : Nat :=
+  (positions.filter (fun i => !holdsB binds (bump q enc i))).length
+
+/-- `zk_stdlib/src/lib.rs: verify / batch_verify` — the length check made before the PLONK
+verifier runs: `if pi.len() != vk.nb_public_inputs { return Err(Error::InvalidInstances) }`. -/
+def lengthCheck (nbPublicInputs : Nat) (pi : List Nat) : Bool := pi.length == nbPublicInputs
 
 end MidnightZK.C08
